@@ -24,6 +24,21 @@ func main() {
 		os.Exit(govc.CheckMain(os.Args[2:]))
 	case "replay":
 		os.Exit(govc.ReplayMain(os.Args[2:]))
+	case "structural":
+		// govc structural <pkgs> <name>...
+		w, err := govc.Load("/repo", strings.Split(os.Args[2], ",")...)
+		if err != nil {
+			fmt.Println(err)
+			os.Exit(2)
+		}
+		if err := w.ReadContracts("/repo", "/verif/spec"); err != nil {
+			fmt.Println(err)
+			os.Exit(2)
+		}
+		for _, n := range os.Args[3:] {
+			r := govc.RunStructural(w, n)
+			fmt.Printf("%v %s\n   %s\n   %s\n", r.OK, r.Name, r.What, r.Detail)
+		}
 	default:
 		fmt.Println("unknown command")
 		os.Exit(2)
